@@ -2,7 +2,7 @@
     Property theorems only; each is closed by [exact] of a lemma from DDBvProofs.v / DDProofs.v.
     M = DDModel.v / DDBvModel.v (hfiledd.c, bitvect.c as the code performs them), S = DDSpec.v (finite map). *)
 From Coq Require Import ZArith List Bool Permutation Lia.
-Require Import H4.gen.Gen_DD H4.DDBvModel H4.DDBvProofs H4.DDSpec H4.DDModel H4.DDProofs H4.DDInvProofs H4.DDEofModel.
+Require Import H4.gen.Gen_DD H4.DDBvModel H4.DDBvProofs H4.DDSpec H4.DDModel H4.DDProofs H4.DDInvProofs H4.DDEofModel H4.DDDynModel H4.DDDynProofs.
 Import ListNotations.
 Local Open Scope Z_scope.
 
@@ -31,6 +31,40 @@ Theorem bv_find_least_zero : forall b, bv_wf b ->
                0 <= r /\ bv_bit b r = false /\ (forall m, 0 <= m < r -> bv_bit b m = true).
 Proof. exact bv_find_next_zero_spec. Qed.
 Print Assumptions bv_find_least_zero.
+
+(** Every sequence of bv_set / bv_get / bv_find_next_zero calls on a vector made by bv_new -- however the buffer had to
+    grow in chunks on the way -- behaves as the corresponding set of natural numbers: bv_set succeeds, bv_get reports
+    membership, bv_find_next_zero returns the least non-member. *)
+Theorem bv_seq_refines_set : forall nb h outs, Forall op_ok h -> bv_run_new nb h = Some outs ->
+  set_ok (fun _ => false) h outs.
+Proof. exact bv_new_seq_refines_set_lemma. Qed.
+Print Assumptions bv_seq_refines_set.
+
+(** dynarray.c (faithful model: num_elems, incr_mult, the array; growth expression regenerated from DAset_elem):
+    DAset_elem never stores outside the array, grows it only when the index lies beyond it and then exactly to the next
+    multiple of incr_mult above the index, and changes no other cell. *)
+Theorem dynarray_set_in_bounds : forall d e v, dn_wf d -> 0 <= e ->
+  exists d', dn_set d e v = Some d' /\ dn_wf d' /\ e < dn_num d' /\
+    (forall r, 0 <= r -> dn_get d' r = if e =? r then v else dn_get d r) /\
+    (dn_num d' = dn_num d \/ (dn_num d <= e /\ dn_num d' = (e / dn_incr d + 1) * dn_incr d)) /\
+    dn_incr d' = dn_incr d.
+Proof. exact dn_set_spec. Qed.
+Print Assumptions dynarray_set_in_bounds.
+
+(** for all operation sequences (DAset_elem / DAget_elem / DAdel_elem at non-negative indices), the dynarray returns
+    what the finite map ref -> slot of the DD model (DDModel.da_get / da_set / da_del) returns: the association-list
+    abstraction used by inv_step / dir_refines_map is a refinement target of the real data structure. *)
+Theorem dynarray_refines_map : forall h d a, dn_wf d -> dyn_rep d a ->
+  (forall k r p, In (k, r, p) h -> 0 <= r) ->
+  map fst (dn_run d h) = a_run a h /\ Forall (fun x => 0 <= snd x) (dn_run d h).
+Proof. exact dyn_refines_map_lemma. Qed.
+Print Assumptions dynarray_refines_map.
+
+(** ... starting from DAcreate_array(REF_DYNARRAY_START, REF_DYNARRAY_INCR), as HTIregister_tag_ref creates it *)
+Theorem ref_dynarray_refines_map : forall h, (forall k r p, In (k, r, p) h -> 0 <= r) ->
+  exists out, dn_run_new REF_DYNARRAY_START REF_DYNARRAY_INCR h = Some out /\ map fst out = a_run [] h.
+Proof. exact ref_dynarray_refines_map_lemma. Qed.
+Print Assumptions ref_dynarray_refines_map.
 
 (** Hnumber is exact for every block size parity: HTIcount_dd (with its odd/even unrolled loop run per block)
     returns the number of entries of the map that the tag designates; it never reads past a block. *)
@@ -202,6 +236,19 @@ Example ex_cache_both_in_domain :
 Proof. vm_compute. split; reflexivity. Qed.
 Example ex_eof : htpstart_end_off [mklb 4 4 [(202, 92); (294, 4); (298, 5); (303, 6)]; mklb 309 4 [(294, 4); (294, 4); (294, 4); (294, 4)]] = 363.
 Proof. vm_compute. reflexivity. Qed.
+Example ex_dyn_run :
+  dn_run_new REF_DYNARRAY_START REF_DYNARRAY_INCR [(0, 3, 7%nat); (0, 64, 8%nat); (1, 64, 0%nat); (0, 65535, 9%nat); (2, 3, 0%nat); (1, 3, 0%nat)]
+  = Some [(0, 64); (0, 256); (9, 256); (0, 65536); (8, 65536); (0, 65536)].
+Proof. vm_compute. reflexivity. Qed.
+Example ex_dyn_wf : exists d, dn_create 64 256 = Some d /\ dn_wf d /\ dyn_rep d [].
+Proof. eexists. split; [reflexivity|]. destruct (dn_create_spec 64 256 _ eq_refl) as (W & _ & _ & H). split; auto. intros r _. rewrite H. reflexivity. Qed.
+Example ex_bv_seq : Forall op_ok [(0, 0, 1); (0, 1, 1); (0, 1000, 1); (2, 0, 0); (0, 1, 0); (2, 0, 0); (1, 1000, 0)] /\
+  option_map (map (fun x => fst (fst (fst x)))) (bv_run_new (-1) [(0, 0, 1); (0, 1, 1); (0, 1000, 1); (2, 0, 0); (0, 1, 0); (2, 0, 0); (1, 1000, 0)])
+  = Some [0; 0; 0; 2; 0; 1; 1].
+Proof.
+  split; [|vm_compute; reflexivity].
+  repeat (apply Forall_cons; [unfold op_ok, BV_TRUE, BV_FALSE; intuition (try discriminate; try lia)|]). apply Forall_nil.
+Qed.
 Example ex_bv_wf : exists b, bv_new (-1) = Some b /\ bv_wf b.
 Proof. eexists. split; [reflexivity|]. exact (proj1 (bv_new_wf (-1) _ eq_refl)). Qed.
 Example ex_delete_uncached : m_cache ex_state = false /\ (exists st', htpdelete ex_state 1 = Some st').
